@@ -8,6 +8,13 @@ what the run observed (`List IterInput`). Nothing here refers to `stepLoop`/`run
 evaluated by the driver on the trace the REAL loop produced (H4 log) and are proved of the model's trace in
 `Props/C12.lean`. Only the vocabulary (`Addr`, `Msg`, `Recv`, `Poll`, `IterInput`, `Out`, `Effect`, `frameOf`)
 is taken from `Model/WsApp.lean`.
+
+The handlers of the app are optional. The predicates about dispatches (`ConnectOnceBeforeMessages`,
+`MessagesOnceInOrder`, `DisconnectOnceThenSilence`) are demanded for the handlers that are registered (for an
+unregistered handler: no dispatch of that kind at all). The predicates about removal, silence after removal,
+polling, sends and pings (`RemovedOnceThenSilence`, `notPolledAfterClose`, `Silent`, `UnicastOk`, `BroadcastOk`)
+speak of no handler: they are demanded of EVERY app, whichever handlers it has, and what they look at (`drop`,
+`sendTo`, `ping`, the polls) is reported by the loop itself, not by a handler.
 -/
 namespace Humphrey.WsAppSpec
 open Humphrey.WsApp
@@ -49,6 +56,14 @@ def admitted (is : List IterInput) : List Addr := (executed is).flatMap (·.inco
 def closings (a : Addr) (is : List IterInput) : Nat :=
   ((executed is).map fun i => (i.polls.filter fun p => p.addr == a && closes p).length).sum
 
+/-- Once `a` has been found closed, broken or timed out it is not polled again (it has left the table).
+To be applied to the executed iterations. -/
+def notPolledAfterClose (a : Addr) : List IterInput → Bool
+  | [] => true
+  | i :: is =>
+    if closedIn i a then is.all fun j => j.polls.all fun p => p.addr != a
+    else notPolledAfterClose a is
+
 /-- The clients connected at (and after) the flush of an iteration, given those connected before it
 (as a list with possible repetitions: only membership matters). -/
 def liveAtFlush (live : List Addr) (i : IterInput) : List Addr :=
@@ -85,10 +100,21 @@ def ConnectOnceBeforeMessages (a : Addr) (T : List Effect) : Prop :=
 def MessagesOnceInOrder (a : Addr) (is : List IterInput) (T : List Effect) : Prop :=
   T.filterMap (msgOf a) = received a is
 
-/-- The disconnect handler is dispatched exactly once for `a`, and nothing concerns `a` afterwards. -/
+/-- The disconnect handler is dispatched exactly once for `a`, and nothing concerns `a` afterwards
+(what follows for `a` is its removal, `drop a`: see `RemovedOnceThenSilence`). -/
 def DisconnectOnceThenSilence (a : Addr) (T : List Effect) : Prop :=
   T.count (.dispatchDisconnect a) = 1 ∧
   ∀ e ∈ (T.dropWhile (· != .dispatchDisconnect a)).drop 1, concerns a e = false
+
+/-- The stream of `a` is removed from the table (and dropped) exactly once, and afterwards nothing is
+dispatched for `a`, sent to it or pinged. No handler is needed to see this. -/
+def RemovedOnceThenSilence (a : Addr) (T : List Effect) : Prop :=
+  T.count (.drop a) = 1 ∧
+  ∀ e ∈ (T.dropWhile (· != .drop a)).drop 1, concerns a e = false
+
+/-- Nothing at all happens for `a`: no dispatch, send, ping or removal. -/
+def Silent (a : Addr) (T : List Effect) : Prop :=
+  ∀ e ∈ T, concerns a e = false ∧ e ≠ .drop a
 
 /-- The effects `seg` of flushing a unicast to `a`: nothing but the one frame to `a`, at most once, exactly
 once when `a` is connected, nothing when it is not. -/
@@ -109,6 +135,10 @@ instance (a : Addr) (is : List IterInput) (T : List Effect) : Decidable (Message
   unfold MessagesOnceInOrder; infer_instance
 instance (a : Addr) (T : List Effect) : Decidable (DisconnectOnceThenSilence a T) := by
   unfold DisconnectOnceThenSilence; infer_instance
+instance (a : Addr) (T : List Effect) : Decidable (RemovedOnceThenSilence a T) := by
+  unfold RemovedOnceThenSilence; infer_instance
+instance (a : Addr) (T : List Effect) : Decidable (Silent a T) := by
+  unfold Silent; infer_instance
 instance (live : List Addr) (a : Addr) (m : Msg) (seg : List Effect) : Decidable (UnicastOk live a m seg) := by
   unfold UnicastOk; infer_instance
 instance (live : List Addr) (m : Msg) (seg : List Effect) : Decidable (BroadcastOk live m seg) := by
